@@ -80,6 +80,16 @@ Theorem C10_unwatch_effective : forall (s : sys) (a w : nat) (mid : list label),
   ~ In w (watchers_of (tr (exec (step s (LUnWatch w a)) mid)) a).
 Proof. intros s a w mid F. apply not_watcher_exec; [exact F|]. cbn. apply unwatch_removes. Qed.
 
+(* KNOWN FINDING (watch:lost-after-watcher-restart). The literal statement does not survive the watcher's own
+   restart: with the harness operations `2.Watch(3); Restart(2); Shutdown(3)` the watcher 2 runs, never called
+   UnWatch, and is told nothing (replayed on real actors by the check). C10_exactly_one above is the strongest
+   statement that holds: it is about watchers that are in the watcher set when the snapshot is taken. *)
+Theorem C10_watcher_restart_refuted : exists (n : nat) (ops : list sop) (w a : nat),
+  existsb is_unwatch ops = false /\ In (OWatch w a) ops /\
+  let s := fold_left apply_sop ops (world0 n) in
+  is_running s w = true /\ is_running s a = false /\ terminated_for s w = [].
+Proof. exact watcher_restart_refuted. Qed.
+
 Print Assumptions C10_at_most_one.
 Print Assumptions C10_only_snapshot_members_told.
 Print Assumptions C10_not_registered_at_snapshot_never_told.
@@ -89,3 +99,4 @@ Print Assumptions C10_snapshot_is_watcher_set.
 Print Assumptions C10_told_or_not_running.
 Print Assumptions C10_watcher_sets_duplicate_free.
 Print Assumptions C10_unwatch_effective.
+Print Assumptions C10_watcher_restart_refuted.
